@@ -98,7 +98,9 @@ def gen_case(rng, tier="quick"):
             # long-lived shared objects used again with other arguments
             ops.append(["shared", _pick(rng, ["td_system", "control",
                                               "bath_two_dt", "gibbs_pair",
-                                              "pt_in_tebd", "parameters"]),
+                                              "pt_in_tebd", "parameters",
+                                              "chain_control",
+                                              "param_table"]),
                         rng.randrange(3), rng.randrange(1, 4)])
             continue
         if k == "new_corr":
@@ -776,6 +778,75 @@ def run_case(case, dec):
                     want = run(oqupy.pt_tempo_compute(
                         fresh_bath(b), 0.0, (p0["steps"] + 0.5) * 0.1,
                         pars(p0["steps"]), progress_type="silent"))
+                elif what == "chain_control":
+                    # one ChainControl (with stacked controls) for several
+                    # chain computations
+                    def mk():
+                        from oqupy.operators import left_super, right_super
+                        cc = oqupy.ChainControl([2, 2])
+                        cc.add_single_site_control(left_super(o["x"]), 0, 1)
+                        cc.add_single_site_control(
+                            right_super(o["z"]) * 0.9, 0, 1)
+                        cc.add_single_site_control(
+                            left_super(o["y"]), 1, 1, post=True)
+                        cc.add_single_site_control(
+                            left_super(o["z"]) * 1.1, 1, 1, post=True)
+                        return cc
+
+                    def run(cc):
+                        chain = oqupy.SystemChain([2, 2])
+                        chain.add_site_hamiltonian(0, 0.3 * o["x"])
+                        chain.add_nn_hamiltonian(0, 0.4 * o["z"], o["z"])
+                        t = oqupy.PtTebd(
+                            oqupy.AugmentedMPS([RHO0, RHO0.T]), chain,
+                            [None, None], oqupy.PtTebdParameters(
+                                dt=dt, order=1 + dti % 2, epsrel=1e-10),
+                            chain_control=cc, dynamics_sites=[0, 1])
+                        r = t.compute(steps + 1, progress_type="silent")
+                        return np.concatenate(
+                            [r["dynamics"][0].states.ravel(),
+                             r["dynamics"][1].states.ravel()])
+                    got, want = run(mk_shared("cc", mk)), run(mk())
+                elif what == "param_table":
+                    # the caller keeps one parameter table and updates it in
+                    # place between gradient computations
+                    need_pt()
+                    p0 = pts[0]
+                    n = p0["steps"]
+
+                    def hamp(x, y):
+                        return 0.5 * x * o["x"] + 0.5 * y * o["z"]
+                    psys = mk_shared("psys", lambda:
+                                     oqupy.ParameterizedSystem(hamp))
+                    key = "ptable%d" % n
+                    if key not in shared_objs:
+                        shared_objs[key] = np.array(
+                            [[1.0 + 0.1 * i, 0.4 - 0.05 * i]
+                             for i in range(2 * n)])
+                    table = shared_objs[key]
+                    table *= 1.0 + 0.1 * (dti + 1)      # caller's update
+                    table[::2, 1] += 0.05 * steps
+                    tol = 1e-7
+
+                    def run(sy, tab):
+                        res = oqupy.state_gradient(
+                            system=sy, initial_state=np.array(RHO0),
+                            target_derivative=np.array(RHO0.T * 0.7),
+                            process_tensors=[p0["obj"]], parameters=tab,
+                            progress_type="silent")
+                        return np.concatenate([
+                            np.array(res["gradient"]).ravel(),
+                            np.array(res["final_state"]).ravel()])
+                    before = table.tobytes()
+                    got = run(psys, table)
+                    if table.tobytes() != before:
+                        viol("caller_array_modified",
+                             "state_gradient/parameters",
+                             "the caller's parameter table changed during "
+                             "state_gradient", call="state_gradient",
+                             array="parameters")
+                    want = run(oqupy.ParameterizedSystem(hamp),
+                               np.array(table))
                 else:  # one TempoParameters object for several computations
                     need_bath()
                     b = baths[0]
